@@ -842,3 +842,113 @@ Proof.
       assert (Ehc : handle_closed (f_h x) s = true) by (unfold handle_closed; rewrite Hh; exact Hc).
       destruct (Hcl Ehc) as [_ T]. congruence.
 Qed.
+
+(* close(): first call Ok, any later call CloseError; a panic (count underflow) only after F-07 *)
+Definition close_spec (s : st) (h : N) (s' : st) (o : out) : Prop :=
+  forall x, getH h s = Some x -> h_live x = true ->
+  (h_closed x = true -> o_res o = RCloseErr /\ unchanged_data s s' /\ sc s' = sc s /\ rc s' = rc s) /\
+  (h_closed x = false ->
+     (o_res o = ROk \/ (o_res o = RPanic /\ t07 (tn s) = true)) /\ unchanged_data s s'
+     /\ exists y, getH h s' = Some y /\ h_closed y = true).
+
+Lemma close_step_spec s h : Inv s -> close_spec s h (fst (step s (Close h))) (snd (step s (Close h))).
+Proof.
+  intros H0. pose proof (Inv_reset s H0) as H1.
+  unfold step. fold (reset s). set (s1 := reset s) in *.
+  unfold close_spec. intros x Hg Hl. change (getH h s1 = Some x) in Hg. rewrite Hg, Hl. cbn [negb].
+  destruct (do_close_inv h x s1 H1 Hg Hl) as [_ (Sf & Ho & [y (Hy & Hly & Hcy & _)] & Eq & _ & Er & Ea & _)].
+  split.
+  - intros Hc. unfold do_close. rewrite Hc. cbn [ret fst snd o_res]. unfold unchanged_data. repeat split; reflexivity.
+  - intros Hc. split; [|split].
+    + unfold do_close. rewrite Hc.
+      destruct (if h_tx x then close_tx (setH h (set_closed true x) s1) else close_rx (setH h (set_closed true x) s1)) eqn:E;
+        cbn [ret fst snd o_res]; [left; reflexivity|].
+      right. split; [reflexivity|].
+      destruct (t07 (tn s)) eqn:T; [reflexivity|]. exfalso.
+      destruct H1 as [_ [HW1 HK1]]. destruct (k_cnt s1 HK1 T) as [A B].
+      destruct (h_tx x) eqn:Htx.
+      * unfold close_tx in E. change (sc (setH h (set_closed true x) s1)) with (sc s1) in E.
+        destruct (N.eqb_spec (sc s1) 0) as [E0|]; [|discriminate].
+        assert (0 < cnt open_tx (hs s1))%nat.
+        { apply cnt_pos with h x; [apply aget_In; exact Hg|]. unfold open_tx. rewrite Hl, Hc, Htx. reflexivity. }
+        clear - A E0 H. lia.
+      * unfold close_rx in E. change (rc (setH h (set_closed true x) s1)) with (rc s1) in E.
+        destruct (N.eqb_spec (rc s1) 0) as [E0|]; [|discriminate].
+        assert (0 < cnt open_rx (hs s1))%nat.
+        { apply cnt_pos with h x; [apply aget_In; exact Hg|]. unfold open_rx. rewrite Hl, Hc, Htx. reflexivity. }
+        clear - B E0 H. lia.
+    + destruct (do_close h x s1) as [s2 r]. cbn [fst ret] in *. unfold unchanged_data. auto.
+    + destruct (do_close h x s1) as [s2 r]. cbn [fst ret] in *. exists y. auto.
+Qed.
+
+(** * C06: wake accounting and registrations, as consequences of the invariant *)
+Definition wake_ok (s : st) : Prop :=
+  (* receive side: some receiver parked-unwoken and the buffer non-empty => a woken receiver is on its way *)
+  (t06 (tn s) = false -> t12 (tn s) = false ->
+     (0 < cnt pw_r (fs s))%nat -> q s <> [] -> (0 < cnt pi_r (fs s))%nat) /\
+  (* send side: some sender parked-unwoken and a free slot => a woken sender is on its way *)
+  (t12 (tn s) = false ->
+     (0 < cnt pw_s (fs s))%nat -> (length (q s) < N.to_nat (cap s))%nat -> (0 < cnt pi_s (fs s))%nat) /\
+  (* disconnection wakes everybody *)
+  (sc s = 0 -> cnt pw_r (fs s) = 0%nat) /\ (rc s = 0 -> cnt pw_s (fs s) = 0%nat).
+
+Lemma Inv_wake_ok s : Inv s -> wake_ok s.
+Proof.
+  intros [HD [HW HK]]. destruct HK as [_ K2 K3]. unfold nq, ncap in *.
+  split; [|split; [|split]].
+  - intros T1 T2 Hp Hq. specialize (K2 T1 T2). destruct (q s); [congruence|]. cbn [length] in K2. lia.
+  - intros T Hp Hl. specialize (K3 T). lia.
+  - intros E. apply no_waiting_r; [exact HW | apply (w_sc0 s HW E)].
+  - intros E. apply no_waiting_s; [exact HW | apply (w_rc0 s HW E)].
+Qed.
+
+(* no registration points at a future that is gone or completed *)
+Definition no_dangling (s : st) : Prop :=
+  (forall f w, In (f, w) (asq s) -> exists x, getF f s = Some x /\ f_live x = true /\ f_done x = false /\ f_reg x = true) /\
+  (t06 (tn s) = false ->
+   forall f w, In (f, w) (arq s) -> exists x, getF f s = Some x /\ f_live x = true /\ f_done x = false /\ f_reg x = true).
+
+Lemma Inv_no_dangling s : Inv s -> no_dangling s.
+Proof.
+  intros [_ [HW _]]. split.
+  - intros f w Hi. destruct (w_asq_k s HW f w Hi) as [x [Hg [_ Hr]]]. destruct (w_reg s HW f x Hg Hr). eauto 6.
+  - intros T f w Hi. destruct (w_arq_reg s HW T f w Hi) as [x [Hg Hr]]. destruct (w_reg s HW f x Hg Hr). eauto 6.
+Qed.
+
+(* a registered, still-WAITING future always has its waiter queued (it cannot be forgotten) *)
+Lemma Inv_registered_queued s f x :
+  Inv s -> getF f s = Some x -> f_reg x = true -> is_waiting (f_state x) = true ->
+  In f (akeys (if f_recv x then arq s else asq s)).
+Proof. intros [_ [HW _]]. apply (w_wq s HW). Qed.
+
+(** * C09: every id ends Returned or Dropped, exactly once *)
+Definition all_gone (s : st) : Prop := forall h x, getH h s = Some x -> h_live x = false.
+
+Lemma Inv_teardown s :
+  Inv s -> all_gone s ->
+  freed s = true /\
+  forall v, (occ v (recvd s) + occ v (back s) + occ v (dropped s) + occ v (q s))%nat
+            = if v <? next s then 1%nat else 0%nat.
+Proof.
+  intros [HD [HW _]] Hg. split.
+  - rewrite (w_freed s HW). unfold any_live.
+    destruct (existsb (fun e : N * handle => h_live (snd e)) (hs s)) eqn:E; [|reflexivity].
+    apply (live_exists (hs s) (w_hnd s HW)) in E. destruct E as [h [x [Hx Hl]]].
+    rewrite (Hg h x Hx) in Hl. discriminate.
+  - intros v. pose proof (d_cons _ _ HD v) as C. unfold tot in C. cbn [occ] in C.
+    assert (Hc : cells s v = 0%nat).
+    { unfold cells. apply cnt_zero. intros f x Hi. unfold cellp.
+      destruct (f_live x) eqn:Hl; [|reflexivity]. exfalso.
+      assert (Hf : getF f s = Some x) by (apply In_aget; [apply (w_fnd s HW) | exact Hi]).
+      destruct (w_fh s HW f x Hf Hl) as [h [Hh (Hlh & _)]]. rewrite (Hg _ _ Hh) in Hlh. discriminate. }
+    rewrite Hc in C. lia.
+Qed.
+
+(** * with every repair switched on no recorded event can happen *)
+Lemma all_fixed_no_taint s : Inv s -> fx s = all_fixes ->
+  t03 (tn s) = false /\ t03f (tn s) = false /\ t06 (tn s) = false /\ t07 (tn s) = false /\
+  t08 (tn s) = false /\ t12 (tn s) = false /\ t33 (tn s) = false.
+Proof.
+  intros [_ [HW _]] E. pose proof (w_taint s HW) as T. rewrite E in T. unfold taint_ok, all_fixes in T. cbn in T.
+  destruct T as (A&B&C&D&F&G&I). repeat split; auto.
+Qed.
